@@ -194,8 +194,26 @@ def check_curve(case, ctx, rng):
     c = G.build(sd)
     P0 = G.hom_pts_of(c)
     S = scale(P0)
+    if rng.random() < 0.6:
+        c.ctrlpts          # a caller that looked at the polygon before elevating it
+        if case['rational'] and rng.random() < 0.5:
+            c.weights
+
+    def views_ok(stage):
+        # the polygon as reported through ctrlpts (and weights) is the polygon of the curve as it is now
+        pw = G.hom_pts_of(c)
+        cp = [list(p) for p in c.ctrlpts]
+        ok = len(cp) == len(pw)
+        if ok and case['rational']:
+            ok = all(abs(x * h[-1] - y) <= 1e-9 * max(1.0, abs(y)) for q, h in zip(cp, pw) for x, y in zip(q, h[:-1]))
+        elif ok:
+            ok = all(abs(x - y) <= 1e-12 * max(1.0, abs(y)) for q, h in zip(cp, pw) for x, y in zip(q, h))
+        return ctx.check(ok, 'curve-level/stale-polygon-view', '%s: ctrlpts reports %d points / other values than the curve\'s control polygon '
+                         '(%d points)' % (stage, len(cp), len(pw)), what='size')
     operations.degree_operations(c, [t])
     P1 = G.hom_pts_of(c)
+    if not views_ok('after degree_operations(+%d)' % t):
+        return
     if not ctx.check(c.degree == p + t and len(P1) == p + t + 1, 'curve-level/elev-size', 'degree_operations(+%d) on a degree-%d Bezier curve: '
                      'degree %r, %d control points' % (t, p, c.degree, len(P1)), what='size'):
         return
@@ -204,6 +222,8 @@ def check_curve(case, ctx, rng):
         return
     for _ in range(t):
         operations.degree_operations(c, [-1])
+        if not views_ok('after reducing'):
+            return
     P2 = G.hom_pts_of(c)
     ok = c.degree == p and len(P2) == len(P0) and all(len(a) == len(b) and all(abs(x - y) <= 1e-7 * S for x, y in zip(a, b)) for a, b in zip(P2, P0))
     ctx.check(ok, 'curve-level/reduce-not-inverse', 'elevating a %s degree-%d Bezier curve by %d and reducing %d times through '
